@@ -36,6 +36,13 @@ Proof.
   - exact (sb_open_detached_inplace_roundtrip m n k).
 Qed.
 
+(* the bytes are NaCl's crypto_secretbox: XSalsa20 key stream (specification), its first 32 bytes
+   keying RFC 8439 Poly1305 over the ciphertext (proved for the limb implementation), the rest
+   XORed into the message -- for every key, nonce and message *)
+Theorem C01_secretbox_is_nacl : forall cbuf m n k, wf_bytes m -> length cbuf = (length m + 16)%nat ->
+  easy_c cbuf m n k = Ok (nacl_secretbox k n m).
+Proof. exact secretbox_is_nacl. Qed.
+
 (* the public-key forms are the secret-key forms under the precomputed key
    HSalsa20(X25519(sk, pk), 0^16), for every message, nonce and key pair *)
 Theorem C01_box_is_secretbox : forall cbuf pad m n pk sk,
